@@ -581,8 +581,8 @@ class Prop(PropBase):
             return code.get("diff") and f"pb.fft.{c['args']['fn']}: {code['diff']} (chunks {c['chunks']})"
         if c["op"] == "reader":
             c = dict(c, cls=c["kind"] + " reader", op=f"{c['entry']}({c['offset']}, {c['n']}, chunks={'default' if c['default_chunks'] else c['tchunks']})")
-            if code.get("chunks_honoured") is False:
-                return f"{c['op']}: the requested time chunks were not honoured"
+            # (whether the requested/default chunk layout is honoured is observed, not judged: the property is about values,
+            #  types and laziness)
         if not code.get("res_dask"):
             return f"{c['op']} on a Dask-backed {c['cls']} returned an eager result"
         if code.get("lazy_count", 0) != 0:
